@@ -39,6 +39,7 @@ class Source(Stream):
 
     def __init__(self, start=False, **kwargs):
         self.stopped = True
+        self._polling = False
         super().__init__(ensure_io_loop=True, **kwargs)
         self.started = False
         if start:
@@ -58,7 +59,21 @@ class Source(Stream):
         if self.stopped:
             self.stopped = False
             self.started = True
-            self.loop.add_callback(self.run)
+            self.loop.add_callback(self._poll_loop)
+
+    async def _poll_loop(self):
+        # At most one polling loop at a time: if the source was stopped and
+        # started again before the previous loop noticed, that loop simply
+        # carries on.
+        if self._polling:
+            return
+        self._polling = True
+        try:
+            result = self.run()
+            if isawaitable(result):
+                await result
+        finally:
+            self._polling = False
 
     async def run(self):
         """This coroutine will be invoked by start() and emit all data
